@@ -107,7 +107,7 @@ pub enum Shape {
     PureWith(u8),
     Fail(S),
     /// parsers from `bpaf::batteries`: 0 verbose_and_quiet_by_number, 1 verbose_by_slice,
-    /// 2 toggle_flag(--on, --off)
+    /// 2 toggle_flag(--on, --off), 3/4 verbose_and_quiet_by_number with an offset at the edge of isize
     Battery(u8),
     Cmd {
         name: S,
@@ -411,6 +411,13 @@ pub fn build(shape: &Shape) -> P {
                 .boxed(),
             1 => bpaf::batteries::verbose_by_slice(1, [10i64, 20, 30])
                 .map(Val::Int)
+                .boxed(),
+            // extreme but ordered parameters: min <= max holds, the offset is at the edge
+            3 => bpaf::batteries::verbose_and_quiet_by_number(isize::MAX, 0, 5)
+                .map(|n| Val::Int(n as i64))
+                .boxed(),
+            4 => bpaf::batteries::verbose_and_quiet_by_number(isize::MIN, -5, 0)
+                .map(|n| Val::Int(n as i64))
                 .boxed(),
             _ => bpaf::batteries::toggle_flag(bpaf::long("on"), 1i64, bpaf::long("off"), 0i64)
                 .map(|o| Val::Opt(o.map(|v| Box::new(Val::Int(v)))))
